@@ -311,6 +311,34 @@ func (fv *funcVerifier) loopCandidates(st *State, mi *modInfo) []candidate {
 				fv.frameFacts = append(fv.frameFacts, frameFact{key: k, fresh: fresh, old: old, f0: f0, guard: s.live})
 				fv.frameAxioms = append(fv.frameAxioms, smt.Implies(s.live, goal(s)))
 			}})
+			// weaker variants for struct fields: everything except the object one pointer variable in scope refers to
+			if strings.HasPrefix(k, "T_") {
+				for _, o := range others {
+					o := o
+					pt, isPtr := o.Type().Underlying().(*types.Pointer)
+					if !isPtr {
+						continue
+					}
+					if _, isSt := pt.Elem().Underlying().(*types.Struct); !isSt {
+						continue
+					}
+					if !strings.HasPrefix(k, fv.so.structName(pt.Elem())+".") {
+						continue
+					}
+					ex := st.vars[o]
+					goalX := func(s *State) smt.Term {
+						r := smt.Term{S: "fr_r", Sort: smt.Int}
+						return smt.Forall([]smt.Term{r}, smt.Implies(smt.And(smt.Ge(r, smt.IntLit(0)), smt.Le(r, f0), smt.Ne(r, ex)),
+							smt.Eq(smt.Select(fv.heapGet(s, k), r), smt.Select(fv.heapGet(pre, k), r))))
+					}
+					cands = append(cands, candidate{desc: "frame " + k + " except " + o.Name(), eval: goalX, frame: true, assumeAt: func(s *State) {
+						fresh := fv.heapGet(s, k)
+						old := fv.heapGet(pre, k)
+						fv.frameFacts = append(fv.frameFacts, frameFact{key: k, fresh: fresh, old: old, f0: f0, guard: s.live, except: ex})
+						fv.frameAxioms = append(fv.frameAxioms, smt.Implies(s.live, goalX(s)))
+					}})
+				}
+			}
 			// weaker variants: everything except the backing array of one slice variable in scope
 			if strings.HasPrefix(k, "mem:") {
 				for _, o := range others {
